@@ -123,7 +123,15 @@ def analyse_python(job):
             continue
         under_try = bool(info["stacks"]) and all(any((fl[0], fl[1]) in try_sites for fl in st) for st in info["stacks"])
         caller_cls = def_of[callerk]["cls"] if callerk[1] != "<module>" else None
-        kind = ("p2/" if job.get("enable_p2") else "") + gen_calls.event_kind(project, site, d["qual"], sorted(info["recv"]), under_try, caller_cls)
+        kind = gen_calls.event_kind(project, site, d["qual"], sorted(info["recv"]), under_try, caller_cls)
+        if job.get("enable_p2"):
+            # with --enable-p2 object instantiation behaves differently as a whole: constructor calls and calls on objects of
+            # classes without constructor are each one mechanism there
+            if kind.startswith("constructor"):
+                kind = "constructor"
+            elif kind.endswith("{receiver-class-without-constructor}"):
+                kind = "method-on-object-of-class-without-constructor"
+            kind = "p2/" + kind
         e, m, f = mid(rootk), mid(callerk), mid(calleek)
         u = unit_of.get(callerk[0])
         rows = gi.call_rows(u, line) if u is not None else []
@@ -245,6 +253,18 @@ def analyse_python(job):
     return res
 
 
+def load_extra_findings(chk):
+    """VERIF_EXTRA_FINDINGS=<json> merges further known findings (same format as known_findings.json) for this run only; used
+    to validate a check against findings that are proposed but not yet committed to known_findings.json."""
+    p = os.environ.get("VERIF_EXTRA_FINDINGS")
+    if not p:
+        return
+    with open(p) as f:
+        for e in json.load(f).get("findings", []):
+            if e.get("property") == chk.prop and not str(e.get("status", "open")).startswith("fixed"):
+                chk.findings.open[e["signature"]] = e
+
+
 def main():
     lianrun.prepare_zygote(warm=False)
     chk = common.Check(PROP, rule=(
@@ -254,6 +274,7 @@ def main():
         "paths, the loader API and the recorded P3 frames"))
     thorough = chk.tier == "thorough"
     rp = os.environ.get("VERIF_REPLAY")
+    load_extra_findings(chk)
     jobs = []
     rng = random.Random(chk.seed)
     if rp:
@@ -264,8 +285,9 @@ def main():
         n = 160 if not thorough else 3000
         base = rng.randrange(1 << 30)
         for i in range(n):
-            proj = gen_calls.generate(base + i, f"s{chk.seed}p{i}")
-            jobs.append({"project": proj, "enable_p2": (i % 10 == 9)})
+            p2 = (i % 10 == 9)        # every tenth project is a single-file one analysed with --enable-p2
+            proj = gen_calls.generate(base + i, f"s{chk.seed}p{i}", **({"n_files": 1} if p2 else {}))
+            jobs.append({"project": proj, "enable_p2": p2})
     kinds_ok = {}
     n_sample = 0
     for r in forkpool.run_jobs(analyse_python, jobs, timeout=300 if not thorough else 900, tag="c07"):
